@@ -9,6 +9,7 @@ import (
 )
 
 type callOut struct {
+	randFirst bool // the callee draws from the random source: it takes rnd_ and returns it first
 	term      string
 	writeback []ast.Expr
 	nres      int
@@ -120,6 +121,13 @@ func (c *fctx) callTerm(call *ast.CallExpr) callOut {
 				co.writeback = append(co.writeback, lv)
 			}
 		}
+		if ci.usesRand {
+			if !c.fi.usesRand {
+				c.fail(call, "call of %s, which draws random octets (not seen by the pre-pass)", callee.Name())
+			}
+			co.randFirst = true
+			args = append([]string{"rnd_"}, args...)
+		}
 		if ci.usesGlobals {
 			if ci.pkg != c.fi.pkg {
 				c.fail(call, "call of %s, which reads the package-level variables of another package", callee.Name())
@@ -177,6 +185,13 @@ func (c *fctx) callTerm(call *ast.CallExpr) callOut {
 			av, _ := c.argValue(a, sig.Params().At(i).Type())
 			args = append(args, av)
 		}
+		if ex.UsesRand {
+			if !c.fi.usesRand {
+				c.fail(call, "call of %s, which draws random octets (not seen by the pre-pass)", callee.Name())
+			}
+			co.randFirst = true
+			args = append([]string{"rnd_"}, args...)
+		}
 		co.term = ex.Lean + " " + strings.Join(args, " ")
 		if ex.Pure {
 			co.term = "Res.ok (" + co.term + ")"
@@ -190,21 +205,32 @@ func (c *fctx) callTerm(call *ast.CallExpr) callOut {
 // bind the call; write mutated arguments back; return result terms (and the error flag, if catchErr)
 func (c *fctx) useCall(call *ast.CallExpr, co callOut, catchErr bool) []string {
 	n := len(co.writeback) + co.nres
+	off := 0
+	if co.randFirst {
+		n++
+		off = 1
+	}
 	term := co.term
 	var r, flag string
 	if catchErr && co.hasErr {
+		if co.randFirst {
+			c.fail(call, "a call that draws random octets whose error is inspected later (the source's state after the failure would be lost)")
+		}
 		rr := c.bindM("", "Go.catchErr ("+term+")")
 		r = rr + ".1"
 		flag = rr + ".2"
 	} else {
 		r = c.bindM("", term)
 	}
+	if co.randFirst {
+		c.letPure("rnd_", "Rand", proj(r, 0, n))
+	}
 	for i, wb := range co.writeback {
-		c.lvalSet(wb, proj(r, i, n))
+		c.lvalSet(wb, proj(r, off+i, n))
 	}
 	var out []string
 	for j := 0; j < co.nres; j++ {
-		out = append(out, proj(r, len(co.writeback)+j, n))
+		out = append(out, proj(r, off+len(co.writeback)+j, n))
 	}
 	if catchErr && co.hasErr {
 		out = append(out, flag)
